@@ -305,6 +305,12 @@ func (w *world) query(n *vnode.Node, t []string) string {
 		q = fmt.Sprintf(`query { %s { _docID _count(%s: {}) _sum(%s: {field: x}) } }`, r.parent, r.kids, r.kids)
 	case "aggf":
 		q = fmt.Sprintf(`query { %s { _docID _count(%s: {filter: {x: {_gt: %s}}}) } }`, r.parent, r.kids, arg)
+	case "kidsaggf": // a filtered list of related documents next to an aggregate over a narrower filter
+		ab := strings.Split(arg, ",")
+		q = fmt.Sprintf(`query { %s { _docID %s(filter: {x: {_gt: %s}}) { _docID } _count(%s: {filter: {x: {_gt: %s, _lt: %s}}}) } }`, r.parent, r.kids, ab[0], r.kids, ab[0], ab[1])
+	case "agg2f": // two aggregates over the relation, the second with a narrower filter
+		ab := strings.Split(arg, ",")
+		q = fmt.Sprintf(`query { %s { _docID c1: _count(%s: {filter: {x: {_gt: %s}}}) c2: _count(%s: {filter: {x: {_gt: %s, _lt: %s}}}) } }`, r.parent, r.kids, ab[0], r.kids, ab[0], ab[1])
 	case "corder":
 		q, root = fmt.Sprintf(`query { %s(order: {%s: {x: ASC}}) { _docID %s { x } } }`, r.child, r.fk, r.fk), r.child
 	case "kidsorder":
@@ -374,6 +380,10 @@ func (w *world) query(n *vnode.Node, t []string) string {
 			items = append(items, fmt.Sprintf("%s:count=%s,sum=%s", l, num(d["_count"]), num(d["_sum"])))
 		case "aggf":
 			items = append(items, fmt.Sprintf("%s:count=%s", l, num(d["_count"])))
+		case "kidsaggf":
+			items = append(items, fmt.Sprintf("%s:%s:count=%s", l, kidList(d[r.kids], "_docID"), num(d["_count"])))
+		case "agg2f":
+			items = append(items, fmt.Sprintf("%s:c1=%s,c2=%s", l, num(d["c1"]), num(d["c2"])))
 		case "corder":
 			px := "none"
 			if pm, ok := d[r.fk].(map[string]any); ok && pm != nil {
@@ -649,6 +659,8 @@ func genCase(r *vc.Rng, id uint64) []string {
 			lines = append(lines, "q pfilter "+p+" "+vs, "q pfilterkids "+p+" "+vs, "q cfilter "+p+" "+vs, "q topcount "+p+" "+vs)
 			if !rel.single {
 				lines = append(lines, "q aggf "+p+" "+vs)
+				hi := strconv.Itoa(v + 1 + r.Intn(3))
+				lines = append(lines, "q kidsaggf "+p+" "+vs+","+hi, "q agg2f "+p+" "+vs+","+hi)
 			}
 		}
 		for _, nm := range names {
